@@ -231,3 +231,220 @@ Qed.
 Theorem write_depends_only_on_concat_proved bs segs1 segs2 : (0 < bs)%nat ->
   concat segs1 = concat segs2 -> v2_body_of bs segs1 = v2_body_of bs segs2.
 Proof. intros Hbs H. rewrite !v2_body_closed_form by exact Hbs. rewrite H. reflexivity. Qed.
+
+(* ------------------------------------------------------------------ *)
+(* the reader                                                           *)
+
+Lemma validate_block_enc b : (0 < length b)%nat -> validate_block (enc_block b) = true.
+Proof.
+  intros Hb. unfold validate_block, enc_block. rewrite app_length, crc_bytes_length, csz_eq.
+  destruct (Nat.leb_spec (length b + 4) 4); [lia|].
+  replace (length b + 4 - 4)%nat with (length b) by lia.
+  rewrite skipn_app, Nat.sub_diag, skipn_all, skipn_O, firstn_app, Nat.sub_diag, firstn_all, firstn_O, app_nil_r.
+  cbn [app]. apply bytes_eqb_refl.
+Qed.
+
+Lemma enc_block_length b : length (enc_block b) = (length b + 4)%nat.
+Proof. unfold enc_block. rewrite app_length, crc_bytes_length. reflexivity. Qed.
+
+(* [rep bs rest av bad]: the unread part [rest] of the block region consists of valid
+   blocks carrying the bytes [av], followed by EOF (bad = false) or by a block that does
+   not validate (bad = true) *)
+Inductive rep (bs : nat) : bytes -> bytes -> bool -> Prop :=
+| rep_end : rep bs [] [] false
+| rep_last b : (0 < length b <= bs)%nat -> rep bs (enc_block b) b false
+| rep_bad tl : tl <> [] -> validate_block (firstn (csz + bs) tl) = false -> rep bs tl [] true
+| rep_cons b rest av bad : (0 < length b)%nat -> length b = bs -> rep bs rest av bad ->
+    rep bs (enc_block b ++ rest) (b ++ av) bad.
+
+Definition ct0 := checksum_crc32ieee.
+
+Lemma read_block_cons bs b rest : (0 < length b)%nat -> length b = bs ->
+  read_block bs ct0 (enc_block b ++ rest) = BlkOk (mkBR rest b).
+Proof.
+  intros Hb Hl. unfold read_block.
+  destruct (enc_block b ++ rest) eqn:E.
+  { apply (f_equal (@length N)) in E. rewrite app_length, enc_block_length in E. cbn in E. lia. }
+  rewrite <- E. unfold ct0. rewrite N.eqb_refl. cbn [negb].
+  assert (HL : (csz + bs)%nat = length (enc_block b)) by (rewrite enc_block_length, csz_eq; lia).
+  rewrite HL, firstn_app, Nat.sub_diag, firstn_all, firstn_O, app_nil_r.
+  rewrite skipn_app, Nat.sub_diag, skipn_all, skipn_O. cbn [app].
+  rewrite validate_block_enc by exact Hb. f_equal. f_equal.
+  rewrite enc_block_length, csz_eq. replace (length b + 4 - 4)%nat with (length b) by lia.
+  unfold enc_block. rewrite firstn_app, Nat.sub_diag, firstn_all, firstn_O, app_nil_r. reflexivity.
+Qed.
+
+Lemma read_block_last bs b : (0 < length b <= bs)%nat ->
+  read_block bs ct0 (enc_block b) = BlkOk (mkBR [] b).
+Proof.
+  intros Hb. unfold read_block.
+  destruct (enc_block b) eqn:E.
+  { apply (f_equal (@length N)) in E. rewrite enc_block_length in E. cbn in E. lia. }
+  rewrite <- E. unfold ct0. rewrite N.eqb_refl. cbn [negb].
+  rewrite firstn_all2 by (rewrite enc_block_length, csz_eq; lia).
+  rewrite skipn_all2 by (rewrite enc_block_length, csz_eq; lia).
+  rewrite validate_block_enc by lia. f_equal. f_equal.
+  rewrite enc_block_length, csz_eq. replace (length b + 4 - 4)%nat with (length b) by lia.
+  unfold enc_block. rewrite firstn_app, Nat.sub_diag, firstn_all, firstn_O, app_nil_r. reflexivity.
+Qed.
+
+Lemma read_block_bad bs tl : tl <> [] -> validate_block (firstn (csz + bs) tl) = false ->
+  read_block bs ct0 tl = BlkPanic.
+Proof.
+  intros Hne Hv. unfold read_block. destruct tl; [congruence|].
+  unfold ct0. rewrite N.eqb_refl. cbn [negb]. rewrite Hv. reflexivity.
+Qed.
+
+(* what one Read does to the part beyond the current block *)
+Lemma br_read_loop_spec bs rest av bad : rep bs rest av bad ->
+  forall fuel acc want, (0 < want <= fuel)%nat ->
+  exists st' res, br_read_loop fuel bs ct0 rest acc want = (st', res) /\
+    (if (want <=? length av)%nat
+     then res = RData (acc ++ firstn want av) /\
+          exists av', rep bs (br_rest st') av' bad /\ br_block st' ++ av' = skipn want av
+     else if bad then res = RPanic
+     else res = REof (acc ++ av) /\ st' = mkBR [] []).
+Proof.
+  induction 1 as [|b Hb|tl Hne Hv|b rest av bad Hb0 Hb Hrep IH]; intros fuel acc want Hw;
+    (destruct fuel as [|fuel]; [lia|]); (destruct want as [|want']; [lia|]); cbn [br_read_loop].
+  - (* end *)
+    cbn [read_block length]. destruct (Nat.leb_spec (S want') 0); [lia|].
+    eexists _, _. split; [reflexivity|]. rewrite app_nil_r. split; reflexivity.
+  - (* last block *)
+    rewrite read_block_last by exact Hb. cbn [br_block br_rest].
+    destruct (Nat.leb_spec (S want') (length b)) as [Hle|Hgt].
+    + rewrite Nat.min_l by lia. rewrite Nat.sub_diag.
+      eexists _, _. split; [reflexivity|]. split; [reflexivity|].
+      exists []. cbn [br_rest br_block]. split; [constructor|apply app_nil_r].
+    + rewrite Nat.min_r by lia.
+      destruct (S want' - length b)%nat as [|w'] eqn:Ew; [lia|].
+      destruct fuel as [|fuel]; [lia|]. cbn [br_read_loop read_block].
+      eexists _, _. split; [reflexivity|]. split; reflexivity.
+  - (* bad block *)
+    rewrite read_block_bad by assumption. cbn [length]. destruct (Nat.leb_spec (S want') 0); [lia|].
+    eexists _, _. split; reflexivity.
+  - (* full block, more follows *)
+    rewrite read_block_cons by assumption. cbn [br_block br_rest].
+    rewrite app_length.
+    destruct (Nat.leb_spec (S want') (length b)) as [Hle|Hgt].
+    + rewrite Nat.min_l by lia. rewrite Nat.sub_diag.
+      destruct (Nat.leb_spec (S want') (length b + length av)); [|lia].
+      eexists _, _. split; [reflexivity|]. split.
+      * rewrite firstn_app. replace (S want' - length b)%nat with 0%nat by lia.
+        rewrite firstn_O, app_nil_r. reflexivity.
+      * exists av. cbn [br_rest br_block]. split; [exact Hrep|].
+        rewrite skipn_app. replace (S want' - length b)%nat with 0%nat by lia. reflexivity.
+    + rewrite Nat.min_r by lia.
+      destruct (S want' - length b)%nat as [|w'] eqn:Ew; [lia|].
+      destruct (IH fuel (acc ++ b) (S w')) as (st' & res & E & Hs); [lia|].
+      exists st', res. split; [exact E|].
+      destruct (Nat.leb_spec (S w') (length av)) as [Hle2|Hgt2].
+      * destruct (Nat.leb_spec (S want') (length b + length av)); [|lia].
+        destruct Hs as [Hres (av' & Hrep' & Hav')]. split.
+        -- rewrite Hres, <- app_assoc. f_equal. rewrite firstn_app, (firstn_all2 b) by lia.
+           rewrite <- Ew. reflexivity.
+        -- exists av'. split; [exact Hrep'|]. rewrite Hav', skipn_app, (skipn_all2 b) by lia.
+           rewrite <- Ew. reflexivity.
+      * destruct (Nat.leb_spec (S want') (length b + length av)); [lia|].
+        destruct bad; [exact Hs|]. destruct Hs as [Hres Hst]. split; [|exact Hst].
+        rewrite Hres, <- app_assoc. reflexivity.
+Qed.
+
+Definition srep (bs : nat) (st : br) (avail : bytes) (bad : bool) : Prop :=
+  exists av, rep bs (br_rest st) av bad /\ avail = br_block st ++ av.
+
+Lemma br_read_spec bs st avail bad want : srep bs st avail bad ->
+  exists st' res, br_read bs ct0 st want = (st', res) /\
+    (if (want <=? length avail)%nat
+     then res = RData (firstn want avail) /\ srep bs st' (skipn want avail) bad
+     else if bad then res = RPanic
+     else res = REof avail /\ srep bs st' [] false).
+Proof.
+  intros (av & Hrep & ->). unfold br_read. rewrite app_length.
+  destruct (Nat.leb_spec want (length (br_block st))) as [Hle|Hgt].
+  - eexists _, _. split; [reflexivity|].
+    destruct (Nat.leb_spec want (length (br_block st) + length av)); [|lia]. split.
+    + rewrite firstn_app. replace (want - length (br_block st))%nat with 0%nat by lia.
+      rewrite firstn_O, app_nil_r. reflexivity.
+    + exists av. cbn [br_rest br_block]. split; [exact Hrep|].
+      rewrite skipn_app. replace (want - length (br_block st))%nat with 0%nat by lia. reflexivity.
+  - destruct (br_read_loop_spec bs _ _ _ Hrep (S want) (br_block st) (want - length (br_block st)))
+      as (st' & res & E & Hs); [lia|].
+    exists st', res. split; [exact E|].
+    destruct (Nat.leb_spec (want - length (br_block st)) (length av)) as [Hle2|Hgt2].
+    + destruct (Nat.leb_spec want (length (br_block st) + length av)); [|lia].
+      destruct Hs as [Hres (av' & Hrep' & Hav')]. split.
+      * rewrite Hres, firstn_app, (firstn_all2 (br_block st)) by lia. reflexivity.
+      * exists av'. split; [exact Hrep'|]. rewrite Hav', skipn_app, (skipn_all2 (br_block st)) by lia.
+        reflexivity.
+    + destruct (Nat.leb_spec want (length (br_block st) + length av)); [lia|].
+      destruct bad; [exact Hs|]. destruct Hs as [Hres ->]. split; [exact Hres|].
+      exists []. cbn. split; [constructor|reflexivity].
+Qed.
+
+Definition v2sr (b : br) : sreader := mkSR ss_v2 checksum_crc32ieee None b [].
+
+Lemma sr_reads_spec bs reads : forall st avail bad, srep bs st avail bad ->
+  fst (sr_reads bs (v2sr st) reads) = spec_reads avail bad reads.
+Proof.
+  induction reads as [|n reads IH]; intros st avail bad Hs; [reflexivity|].
+  cbn [sr_reads spec_reads]. unfold sr_read.
+  change (sr_ver (v2sr st) =? ss_v2) with true. cbv iota.
+  change (sr_ct (v2sr st)) with ct0. change (sr_br (v2sr st)) with st.
+  change (sr_ver (v2sr st)) with ss_v2. change (sr_pcrc (v2sr st)) with (@None bytes).
+  change (sr_seen (v2sr st)) with (@nil N).
+  destruct (br_read_spec bs st avail bad n Hs) as (st' & res & E & Hres).
+  rewrite E.
+  destruct (Nat.leb_spec n (length avail)) as [Hle|Hgt].
+  - destruct Hres as [-> Hs']. change (mkSR ss_v2 ct0 None st' []) with (v2sr st').
+    destruct (sr_reads bs (v2sr st') reads) as [o fin] eqn:E2. cbn [fst].
+    f_equal. rewrite <- (IH st' _ _ Hs'), E2. reflexivity.
+  - destruct bad.
+    + subst res. reflexivity.
+    + destruct Hres as [-> Hs']. change (mkSR ss_v2 ct0 None st' []) with (v2sr st').
+      destruct (sr_reads bs (v2sr st') reads) as [o fin] eqn:E2. cbn [fst].
+      f_equal. rewrite <- (IH st' _ _ Hs'), E2. reflexivity.
+Qed.
+
+(* every payload splits into full blocks and a remainder *)
+Lemma split_blocks bs p : (0 < bs)%nat ->
+  exists (F : list bytes) (r : bytes),
+    Forall (fun b => length b = bs) F /\ (length r < bs)%nat /\ concat F ++ r = p.
+Proof.
+  intros Hbs.
+  destruct (bw_write_loop_inv bs Hbs (S (length p)) p [] [] false) as (F & r & _ & HF & Hr & Hc);
+    [lia|constructor|cbn; lia|].
+  exists F, r. auto.
+Qed.
+
+Lemma rep_blocks bs F : (0 < bs)%nat -> Forall (fun b => length b = bs) F ->
+  forall r, (length r < bs)%nat -> rep bs (enc_blocks (F ++ last_block r)) (concat F ++ r) false.
+Proof.
+  intros Hbs HF. induction HF as [|b F Hb HF IH]; intros r Hr.
+  - cbn [app concat]. destruct r as [|x r].
+    + cbn. constructor.
+    + cbn [last_block]. rewrite enc_blocks_one. apply (rep_last bs (x :: r)). cbn [length] in *. lia.
+  - cbn [app concat]. unfold enc_blocks. cbn [map concat]. fold (enc_blocks (F ++ last_block r)).
+    rewrite <- app_assoc. apply rep_cons; [lia|exact Hb|apply IH; exact Hr].
+Qed.
+
+Lemma file_tail_length t : length (file_tail t) = 16%nat.
+Proof. unfold file_tail. rewrite app_length, le_length, magic_length. reflexivity. Qed.
+
+Lemma v2_reader_file_body bs p :
+  v2_reader (file_body bs p) = v2sr (mkBR (enc_blocks (blocks bs p)) []).
+Proof.
+  unfold v2_reader, v2sr, file_body. f_equal. f_equal.
+  rewrite app_length, file_tail_length, tsz_eq.
+  replace (length (enc_blocks (blocks bs p)) + 16 - 16)%nat with (length (enc_blocks (blocks bs p))) by lia.
+  rewrite firstn_app, Nat.sub_diag, firstn_all, firstn_O, app_nil_r. reflexivity.
+Qed.
+
+Theorem read_write_roundtrip_proved bs p reads : (0 < bs)%nat ->
+  fst (sr_reads bs (v2_reader (file_body bs p)) reads) = spec_reads p false reads.
+Proof.
+  intros Hbs. rewrite v2_reader_file_body.
+  destruct (split_blocks bs p Hbs) as (F & r & HF & Hr & Hc).
+  apply sr_reads_spec. exists p. cbn [br_rest br_block app]. split; [|reflexivity].
+  rewrite <- Hc at 1. rewrite blocks_spec by assumption. rewrite <- Hc. apply rep_blocks; assumption.
+Qed.
